@@ -27,6 +27,10 @@ type VNet struct {
 	Decide func(d *Dgram) Action
 	// Mangle may rewrite a datagram about to be delivered (MITM); nil = identity.
 	Mangle func(d *Dgram) [][]byte
+	// Quantum: read deadlines are given as wall-clock instants (time.Now().Add(d)); the part of d
+	// lost between the caller's time.Now() and SetReadDeadline is removed by rounding to this unit
+	// (default 1 ms; harnesses whose deadlines are multiples of a larger unit set it).
+	Quantum time.Duration
 	// TieFlip resolves simultaneous expiries in the opposite order.
 	TieFlip bool
 
@@ -186,7 +190,11 @@ func (e *VEnd) SetReadDeadline(t time.Time) error {
 	if d < 0 {
 		d = 0
 	}
-	d = d.Round(time.Millisecond)
+	q := n.Quantum
+	if q <= 0 {
+		q = time.Millisecond
+	}
+	d = d.Round(q)
 	e.deadline = n.now + d
 	n.cond.Broadcast()
 	return nil
